@@ -253,6 +253,15 @@ func (f *Fn) isFileDataPath(p string) bool {
 // LenOf returns the linear expression of len(v) for a slice, string or array-pointer value.
 func (f *Fn) LenOf(v ssa.Value) Expr {
 	v = ssax.Strip(v)
+	// arrays (and pointers to arrays) have a constant length, wherever the value comes from
+	switch t := v.Type().Underlying().(type) {
+	case *types.Array:
+		return Const(t.Len())
+	case *types.Pointer:
+		if arr, ok := t.Elem().Underlying().(*types.Array); ok {
+			return Const(arr.Len())
+		}
+	}
 	switch x := v.(type) {
 	case *ssa.Const:
 		if x.Value != nil && x.Value.Kind() == constant.String {
